@@ -215,7 +215,7 @@ macro_rules! harness {
 /// Same as `harness!`, with Kani stubs: `stubs = [(original, replacement), ..]`. Natively (replay) nothing is stubbed,
 /// so a body used with this macro must phrase its check for both situations (see c18.rs).
 macro_rules! harness_stubbed {
-    ($name:ident, unwind = $n:literal, stubs = [$(($orig:path, $repl:path)),+ $(,)?], |$s:ident| $body:block) => {
+    ($name:ident, unwind = $n:literal, stubs = [$(($orig:expr, $repl:path)),+ $(,)?], |$s:ident| $body:block) => {
         pub fn $name<S: $crate::verif::src::Src>($s: &mut S) $body
 
         #[cfg(kani)]
